@@ -12,17 +12,17 @@ CHECKS = {
  "C05": ("bounded-exhaustive enumeration of push/clear sequences against a Vec model and a u128 stride acceptor, long structured random sequences, cross-profile digest comparison", "5/C05"),
  "C06": ("reference-model oracle for the Huffman container: measured code lengths vs independent optimal-cost reference, index arithmetic, bounded decode of every item at every bit alignment, refusal of unknown symbols; bounded-exhaustive small alphabets", "5/C06"),
  "C07": ("reference-model oracle for the dictionary codec over multi-generation merges: exact read-back, refusal only where the model permits it, one-byte cost in two sound regimes (dominant / exact summary)", "5/C07"),
- "C08": ("twin comparison: cleared object vs Default::default() in lock-step (indices and reads), repeated clear/refill cycles, bounded-exhaustive short (H1,H2) pairs", "5/C08"),
- "C09": ("triplet comparison: original / clone / clone_from copy under identical then divergent histories (equal continuation, independence of reads)", "5/C09"),
- "C10": ("twin comparison: history with arbitrary reserve_* calls vs without; merge_regions / merge_capacity results vs Default::default(), coded regions within their acceptance contract", "5/C10"),
+ "C08": ("twin comparison: cleared object vs Default::default() in lock-step (indices and reads), repeated clear/refill cycles, regions merged from both compared as next generation, random chains of derivations ending in clear, bounded-exhaustive short (H1,H2) pairs", "5/C08"),
+ "C09": ("triplet comparison: original / clone / clone_from copy under identical then divergent histories (equal continuation, independence of reads, equal next generation), random chains of derivations ending in clone / clone_from", "5/C09"),
+ "C10": ("twin comparison: history with arbitrary reserve_* calls vs without; merge_regions / merge_capacity results vs Default::default(), coded regions within their acceptance contract (covered values and their siblings must be accepted); random chains of derivations ending in a reservation or merge", "5/C10"),
  "C11": ("collapse oracle at every exposed depth: equal consecutive push => same index and no storage growth, otherwise reads back; splits by clear / merge / clone / serde; bounded-exhaustive sequences", "5/C11"),
  "C12": ("dense-index oracle: k-th push returns k and index k reads row k with its own width, adversarial ragged row orders, across clear / merge", "5/C12"),
  "C13": ("fail-stop oracle: get(i) in range equals the model, out-of-range positions must panic, on items that have a successor, both representations, FlatStack::get", "5/C13"),
  "C14": ("law checker: into_owned / borrow_as / clone_onto (arbitrary prior targets) / reborrow / region-to-region push of read items against the owned model", "5/C14"),
  "C15": ("exhaustive pairwise comparison of read items in every representation against ==/cmp of the owned values, order laws on triples", "5/C15"),
- "C16": ("twin comparison: original vs JSON round-trip copy in lock-step (indices, reads, used bytes) for regions, FlatStacks and bare index containers", "5/C16"),
+ "C16": ("twin comparison: original vs JSON round-trip copy in lock-step (indices, reads, used bytes) for regions, FlatStacks and bare index containers; random chains of derivations ending in a round trip", "5/C16"),
  "C17": ("counting global allocator + capacity snapshots around measured push windows (pre-sized: zero calls, constant capacities; unsized: logarithmic bound); valgrind memcheck cross-check in thorough", "5/C17"),
- "C18": ("heap_size monitor after every operation: used <= capacity, model lower bound, monotone on push, clear residue compared with doubling and payload-scaling twins", "5/C18"),
+ "C18": ("heap_size monitor after every operation: used <= capacity, model lower bound, monotone on push (also over histories of thousands of pushes), clear residue compared with doubling and payload-scaling twins, default and merged starts", "5/C18"),
  "C19": ("documented-cost oracle for IndexOptimized / IndexList over the exhaustive alphabet of C05 and random sequences; FlatStack index share compared with the bare region", "5/C19"),
  "C20": ("twin comparison: region fed a random input form per push vs twin fed the canonical form (indices, used bytes, reads)", "5/C20"),
 }
@@ -41,18 +41,18 @@ SPECIFIC = {
  "C05": "Complete enumeration of all push/clear sequences up to length 5 (quick) / 7 (thorough) over an 11-letter transition-covering alphabet for 4 strides on 4 containers (exhaustive: true for that bound), plus long structured random sequences; the two build profiles must agree on an observation digest.",
  "C06": "All frequency profiles over 1..4 (quick) / 1..5 (thorough) symbols with counts from {1,2,3,5,8}, each with all items of length <= 3 and all pairs of items of length <= 2, are enumerated completely; special profiles (Fibonacci up to 21-bit codes, 257..1000 equiprobable symbols, single symbol, empty alphabet, three generations) and random profiles beyond.",
  "C07": "Model-based exploration of up to 4 merge generations with five pool shapes; the one-byte claim is only asserted in the two regimes where the heavy-hitter summary is provably exact or the string provably dominant.",
- "C08": "All (H1, H2) with |H1|, |H2| <= 3 over 3 values (including the empty item) on 16 entries enumerated completely; random histories with up to 5 clear cycles elsewhere.",
- "C09": "Exploration: clone and clone_from copies under identical and divergent continuations, destinations pre-filled by unrelated histories.",
- "C10": "Exploration: twin without reservations; merged vs default under the same pushes with 0..3 sources, ancestors and single-ancestor chains.",
+ "C08": "All (H1, H2) with |H1|, |H2| <= 3 over 3 values (including the empty item) on 16 entries enumerated completely; random histories with up to 5 clear cycles and chains of 2-6 derivations elsewhere.",
+ "C09": "Exploration: clone and clone_from copies under identical and divergent continuations, destinations pre-filled by unrelated histories or themselves merged; chains of 2-6 derivations (clear, clone, clone_from, serde, reserve_*, merge) against a default twin.",
+ "C10": "Exploration: twin without reservations; merged vs default under the same pushes with 0..3 sources, ancestors and single-ancestor chains; chains of 2-6 derivations against a default twin.",
  "C11": "All sequences of length <= 6 (quick) / 8 (thorough) over {a, b, a in another form, clear} on every top-level collapsing entry enumerated completely; random sequences split by clear / merge / clone / clone_from / serde elsewhere.",
  "C12": "Exploration with adversarial ragged row orders; the index counter is exact (k-th push must return k).",
  "C13": "Exploration; every out-of-range probe must panic, on items that have a successor in the region.",
  "C14": "Exploration of the five laws with clone_onto targets drawn from the entry's own generators.",
  "C15": "All ordered pairs of the 40 vectors of length <= 3 over a 3-value domain x 9 (slices) / 16 (Huffman) representation pairs and all triples are compared completely for 6 compositions (exhaustive for that bound); random longer vectors beyond.",
- "C16": "Exploration through serde_json; values restricted to what JSON carries losslessly.",
- "C17": "The counting allocator observes every allocator call of the measured push windows; exploration over batches and pre-sizing paths; thorough records valgrind's independent allocation count next to the counter's.",
- "C18": "Exploration with a sound lower bound from the reference model and two metamorphic twins for the clear clause.",
- "C19": "Same complete enumeration as C05 for IndexOptimized and IndexList with the documented byte cost as oracle (exhaustive: true for that bound); FlatStack clause by comparison with the bare region.",
+ "C16": "Exploration through serde_json; values restricted to what JSON carries losslessly; chains of 2-6 derivations ending in a round trip against a default twin.",
+ "C17": "The counting allocator observes every allocator call of the measured push windows; exploration over batches and pre-sizing paths, every ReserveItems impl of the crate reached (fixed-width array and &&str forms through a dedicated scenario); thorough records valgrind's independent allocation count next to the counter's.",
+ "C18": "Exploration with a sound lower bound from the reference model and two metamorphic twins for the clear clause; long histories (2 000 / 12 000 pushes) for the monotonicity clause.",
+ "C19": "Same complete enumeration as C05 for IndexOptimized and IndexList with the documented byte cost as oracle (exhaustive: true for that bound); FlatStack clause by comparison with the bare region, 1 to 100 000 items, default and merge_capacity starts.",
  "C20": "Exploration: every listed form of every entry against a twin fed the canonical form, including the next generation merged from each.",
 }
 
